@@ -487,3 +487,118 @@ def _scope_job(tier="quick", seed=0):
 
 
 JOBS = {"C10.scope": _scope_job}
+
+
+# ---------------------------------------------------------------------------------------------------------
+# BOUNDED: hand-written mutators of the element classes, run on the elements of real parts (PowerPoint-authored prior states)
+
+# helpers whose callers establish a precondition (the method itself is not an entry point): calling them out of context proves nothing
+_HELPERS_WITH_PRECONDITION = {
+    ("CT_Background", "add_noFill_bgPr"): "called by CT_CommonSlideData.get_or_add_bgPr after it removed the existing p:bgPr / p:bgRef",
+    ("CT_TextBody", "clear_content"): "documented to leave the body without a:p until the caller adds one",
+    ("CT_TableRow", "add_tc"): "adds a cell; the caller adds the grid column (rectangularity is C14's)",
+}
+
+
+def _native_mutators(tier="quick", seed=0):
+    import copy
+    import glob
+    import inspect
+    import io
+    import os
+    import time as _t
+    import types
+
+    from pptx import Presentation
+
+    from .c03 import validate_root
+
+    t0 = _t.time()
+    obls, evals = [], 0
+    # entry points only: `_add_x` / `_insert_x` are the second half of `get_or_add_x` and assume the child is absent
+    prefixes = ("get_or_add", "add_", "get_or_change_to", "remove_", "unclear_")
+
+    def mutators(cls):
+        out = []
+        for k in cls.__mro__:
+            if not k.__module__.startswith("pptx.oxml") or k.__name__ in ("BaseOxmlElement", "_OxmlElementBase"):
+                continue
+            for n, f in k.__dict__.items():
+                if not (isinstance(f, types.FunctionType) and f.__module__ == k.__module__ and n.startswith(prefixes)):
+                    continue
+                if (k.__name__, n) in _HELPERS_WITH_PRECONDITION or n.startswith("_insert_"):
+                    continue
+                ps = list(inspect.signature(f).parameters.values())[1:]
+                if any(p.default is p.empty and p.kind in (p.POSITIONAL_ONLY, p.POSITIONAL_OR_KEYWORD) for p in ps):
+                    continue
+                if not any(n == m for _, m in out):
+                    out.append((k.__name__, n))
+        return out
+
+    repo = os.environ.get("PPTX_REPO", "/repo")
+    files = sorted(glob.glob(os.path.join(repo, "features", "steps", "test_files", "*.pptx")))
+    if tier == "quick":
+        files = [f for f in files if os.path.basename(f) in ("cht-point-props.pptx", "cht-charts.pptx", "shp-shapes.pptx", "tbl-cell.pptx", "sld-background.pptx", "dml-fill.pptx",
+                                                              "cht-datalabels.pptx", "cht-axis-props.pptx", "txt-paragraph-props.pptx", "shp-picture.pptx", "test.pptx", "cht-chart-props.pptx")]
+    cap = 3 if tier == "quick" else 12
+    found, count, tried = {}, {}, set()
+    for f in [None] + files:
+        prs = Presentation(f) if f else Presentation()
+        label = os.path.basename(f) if f else "default template"
+        for part in prs.part.package.iter_parts():
+            root = getattr(part, "_element", None)
+            if root is None or [m for m in validate_root(root) if "not expected" in m]:
+                continue  # not an XML part, or a child is already out of place (outside the property's premise)
+            for el in list(root.iter()):
+                if not isinstance(el.tag, str):
+                    continue
+                ms = mutators(type(el))
+                seqs = [(cname, (meth,)) for cname, meth in ms] + [(c1, (m1, m2)) for c1, m1 in ms for _, m2 in ms if m1 != m2]
+                for cname, meths in seqs:
+                    meth = "+".join(meths)
+                    key = (type(el).__name__, meth)
+                    if count.get(key, 0) >= cap:
+                        continue
+                    count[key] = count.get(key, 0) + 1
+                    tried.add((cname, meth))
+                    evals += 1
+                    r2 = copy.deepcopy(root)
+                    idxs, cur = [], el
+                    while cur is not root:
+                        par = cur.getparent()
+                        idxs.append(par.index(cur))
+                        cur = par
+                    el2 = r2
+                    for i in reversed(idxs):
+                        el2 = el2[i]
+                    kids_before = [c.tag.split("}")[-1] for c in el2 if isinstance(c.tag, str)]
+                    try:
+                        for m in meths:
+                            getattr(el2, m)()
+                    except (ValueError, TypeError, AttributeError, KeyError, IndexError):
+                        continue  # the helper does not apply to this element in this state
+                    # the property is about where a child lands: a container that is still empty (its caller fills it) or an attribute
+                    # still to be set is not a misplaced child
+                    v = [m for m in validate_root(r2) if "not expected" in m]
+                    if v:
+                        found.setdefault("%s.%s" % (cname, meth), "%s, part %s: <%s> with children %s, after %s(): %s -- %s" % (
+                            label, part.partname, el.tag.split("}")[-1], kids_before, meth, [c.tag.split("}")[-1] for c in el2 if isinstance(c.tag, str)], v[:1]))
+
+    def rec(name, bad):
+        r = {"name": name, "base": name, "kind": "bounded", "status": "refuted" if bad else "discharged", "backend": "native", "time": 0, "path": 0}
+        if bad:
+            r["replay"] = {"confirmed": True, "witness_class": "misplaced-child", "detail": bad}
+            r["model"] = None
+        obls.append(r)
+
+    for sig, wit in sorted(found.items()):
+        rec("C10.native.handwritten_mutator_keeps_part_valid[%s]" % sig, wit)
+    rec("C10.native.handwritten_mutators_on_real_parts", None if not found else "%d hand-written mutators leave a valid part invalid: %s" % (len(found), sorted(found)))
+    return {"contract": "C10.native_mutators", "prop": "C10", "status": "ok", "obligations": obls, "paths": 0, "assumed": [], "functions": {},
+            "notes": ["excluded helpers (precondition established by their caller): %s" % sorted("%s.%s" % k for k in _HELPERS_WITH_PRECONDITION)], "solver_s": 0.0, "wall_s": _t.time() - t0,
+            "bounded": {"name": "C10.native_mutators", "bound": "%d hand-written zero-argument mutators of the element classes (get_or_add_* / add_* / remove_* ...) and ordered pairs of them, each on up to %d elements of its class "
+                        "taken from the default template and %d corpus decks, the whole part validated against the XSD afterwards" % (len(tried), cap, len(files)),
+                        "evaluations": evals, "samples": sorted("%s.%s" % k for k in tried)[:6], "counted_as_proved": False}}
+
+
+JOBS["C10.native_mutators"] = _native_mutators
